@@ -348,7 +348,7 @@ impl Check for C07 {
             "Eco runs on real loopback sockets through ureq; the other six use the scripted transport".into(),
         ]
     }
-    fn total_cases(&self, tier: Tier) -> u64 { tier.pick(42_000, 1_000_000) }
+    fn total_cases(&self, tier: Tier) -> u64 { tier.pick(210_000, 1_000_000) }
     fn run_case(&mut self, cx: &mut Cx) {
         // Eco needs real sockets (~1 ms): one in 40 cases
         let slot = cx.idx % 40;
